@@ -570,6 +570,19 @@ func (w *World) extraObligations(run *checkRun) {
 		w.stringerObligations(run)
 	case "C03":
 		w.routerObligations(run)
+	case "C16":
+		fr := &FuncResult{Fn: "noninterference"}
+		run.results = append(run.results, fr)
+		checks, fns := w.nonintChecks()
+		run.funcs = append(run.funcs, fns...)
+		for _, gc := range checks {
+			o := w.groundObligation(run.prop, gc)
+			o.Kind = "dependence"
+			o.Fn = "noninterference"
+			run.items = append(run.items, workItem{fr, o})
+		}
+		run.notes = append(run.notes, fmt.Sprintf("dependence obligations: %d functions reachable from the decoding entry points; option locations: decoder.debug, decoder.opts.*, decoder.unknownFields, decoder.unknownMessages", len(fns)))
+		run.trusted["the user-supplied Logger does not touch the library's state; reflect/binary/fmt callees do not read the option locations"] = true
 	case "C15":
 		fr := &FuncResult{Fn: "profile tables"}
 		run.results = append(run.results, fr)
